@@ -6,6 +6,7 @@
 #include <kernel/lafem/unit_filter_blocked.hpp>
 #include <kernel/lafem/slip_filter.hpp>
 #include <kernel/lafem/mean_filter.hpp>
+#include <kernel/lafem/mean_filter_blocked.hpp>
 #include <kernel/lafem/filter_chain.hpp>
 #include <kernel/lafem/filter_sequence.hpp>
 #include <kernel/lafem/tuple_filter.hpp>
@@ -255,6 +256,37 @@ void mean(Index n)
   }
 }
 
+// blocked mean filter: every component is filtered with its own mean (component-wise dot products and axpy)
+template<typename DT>
+void mean_blocked(Index n)
+{
+  constexpr int BS = 2; typedef LAFEM::DenseVectorBlocked<DT, Index, BS> VB; typedef Tiny::Vector<DT, BS> TV;
+  auto mk = [&](const std::string& nm, double base, double step, std::vector<DT>& flat, bool pos) { VB v(n); for(Index i = 0; i < n * BS; ++i) { DT x = H<DT>::var(nm + str(i), base + step * double(i)); if(pos) H<DT>::assume_lt(DT(0), x); v.template elements<LAFEM::Perspective::pod>()[i] = x; flat.push_back(x); } return v; };
+  for(int op = 0; op < 4; ++op)
+  {
+    static const char* on[] = {"filter_rhs", "filter_def", "filter_cor", "filter_sol"};
+    std::string cn = std::string("mean-blocked ") + on[op] + " n=" + str(n); if(!H<DT>::want(cn)) continue;
+    H<DT>::begin(cn, "{\"filter\":\"mean blocked\"}");
+    std::vector<DT> pb, wb, vb; VB prim = mk("p", 1.0, 0.125, pb, true), dual = mk("w", 0.5, 0.0625, wb, true), v = mk("v", -0.75, 0.5, vb, false);
+    TV smean; DT vol[BS]; for(int c = 0; c < BS; ++c) { smean[c] = H<DT>::var("solmean" + str(Index(c)), 0.375 + 0.25 * c); vol[c] = DT(0); for(Index i = 0; i < n; ++i) vol[c] += pb[i * BS + Index(c)] * wb[i * BS + Index(c)]; }
+    int rc = guarded([&] {
+      LAFEM::MeanFilterBlocked<DT, Index, BS> f(std::move(prim), std::move(dual), smean);
+      auto ap = [&](VB& w) { switch(op) { case 0: f.filter_rhs(w); break; case 1: f.filter_def(w); break; case 2: f.filter_cor(w); break; default: f.filter_sol(w); } };
+      ap(v); std::vector<DT> g; for(Index i = 0; i < n * BS; ++i) g.push_back(v.template elements<LAFEM::Perspective::pod>()[i]);
+      for(int c = 0; c < BS; ++c)
+      {
+        DT gp = DT(0), gw = DT(0); for(Index i = 0; i < n; ++i) { gp += g[i * BS + Index(c)] * pb[i * BS + Index(c)]; gw += g[i * BS + Index(c)] * wb[i * BS + Index(c)]; }
+        if(op < 2) H<DT>::eq("component " + str(Index(c)) + ": dual mean vanishes (v.prim = 0)", gp, DT(0));
+        else if(op == 2) H<DT>::eq("component " + str(Index(c)) + ": primal mean vanishes (v.dual = 0)", gw, DT(0));
+        else H<DT>::eq("component " + str(Index(c)) + ": solution mean (v.dual = mean * volume)", gw, smean[c] * vol[c]);
+      }
+      ap(v); for(Index i = 0; i < n * BS; ++i) H<DT>::eq("idempotent[" + str(i) + "]", v.template elements<LAFEM::Perspective::pod>()[i], g[i]);
+    });
+    H<DT>::fact("completes", rc == 0);
+    H<DT>::end();
+  }
+}
+
 // compositions: chain of (slip, unit-blocked), sequence of two unit filters, tuple filter over a tuple vector
 template<typename DT>
 void compositions()
@@ -316,7 +348,7 @@ void run_all()
     for(auto& idx : subs) { unit_scalar<DT>(n, idx); unit_blocked<DT, 2>(n, idx); if(n <= 2) unit_blocked<DT, 3>(n, idx); slip<DT, 2>(n, idx); if(n <= 2) slip<DT, 3>(n, idx); }
     if(n <= 2 || g_maxn > 3) for(auto& p : all_patterns(n, n, n <= 2 ? 4 : 5)) for(auto& idx : subs) { unit_matrix<DT>(n, idx, p); if(n <= 2) unit_blocked_matrix<DT, 2>(n, idx, p); }
     if(n == 3 && g_maxn <= 3) { Pattern p = {{0, 1}, {0, 2}, {1}}; /* rows without stored diagonal */ for(auto& idx : subs) unit_matrix<DT>(n, idx, p); Pattern q = {{0, 1, 2}, {1}, {0, 2}}; for(auto& idx : subs) unit_matrix<DT>(n, idx, q); }
-    mean<DT>(n);
+    mean<DT>(n); if(n <= 2) mean_blocked<DT>(n);
   }
   compositions<DT>();
   // ignore_nans: every NaN mask of the prescribed block value, 2x2 block-matrix patterns
